@@ -52,6 +52,18 @@ func c20child(args []string) {
 	case "loggerlayout-file":
 		cfg["appender.f.type"], cfg["appender.f.fileDir"], cfg["appender.f.fileName"] = "File", dir, "t.log"
 		cfg["logger.lg.type"], cfg["logger.lg.appenderRef.ref"], cfg["logger.lg.layout.type"] = "Logger", "f", lt
+	case "loggerlayout-2files", "2files":
+		// two (three) appenders behind one synchronous logger: a returned call means the line is in EVERY target
+		cfg["appender.f.type"], cfg["appender.f.fileDir"], cfg["appender.f.fileName"] = "File", dir, "t.log"
+		cfg["appender.g.type"], cfg["appender.g.fileDir"], cfg["appender.g.fileName"] = "File", dir, "u.log"
+		cfg["appender.h.type"], cfg["appender.h.fileDir"], cfg["appender.h.fileName"], cfg["appender.h.rotation"], cfg["appender.h.maxAge"] = "RollingFile", dir, "v.log", "c20sec", "24"
+		cfg["logger.lg.type"] = "Logger"
+		cfg["logger.lg.appenderRef[0].ref"], cfg["logger.lg.appenderRef[1].ref"], cfg["logger.lg.appenderRef[2].ref"] = "f", "g", "h"
+		if kind == "loggerlayout-2files" {
+			cfg["logger.lg.layout.type"] = lt
+		} else {
+			cfg["appender.f.layout.type"], cfg["appender.g.layout.type"], cfg["appender.h.layout.type"] = lt, lt, lt
+		}
 	case "filelogger":
 		cfg["logger.lg.type"], cfg["logger.lg.fileDir"], cfg["logger.lg.fileName"], cfg["logger.lg.layout.type"] = "File", dir, "t.log", lt
 	case "rollinglogger":
@@ -246,17 +258,45 @@ func c20one(w *W, kind, layout string, G, N, k int, mode string, idx int) {
 			}
 		}
 	}
-	complete := map[string]bool{}
-	for _, ln := range strings.SplitAfter(string(data), "\n") {
-		if !strings.HasSuffix(ln, "\n") {
-			continue // an incomplete trailing line does not count
-		}
-		t := strings.TrimSuffix(ln, "\n")
-		if strings.HasSuffix(t, "z=END") || strings.HasSuffix(t, `"z":"END"}`) || strings.HasSuffix(t, `z=END"}`) {
-			if id := idOf([]byte(t)); id != "" {
-				complete[id] = true
+	completeIn := func(data []byte) map[string]bool {
+		complete := map[string]bool{}
+		for _, ln := range strings.SplitAfter(string(data), "\n") {
+			if !strings.HasSuffix(ln, "\n") {
+				continue // an incomplete trailing line does not count
+			}
+			t := strings.TrimSuffix(ln, "\n")
+			if strings.HasSuffix(t, "z=END") || strings.HasSuffix(t, `"z":"END"}`) || strings.HasSuffix(t, `z=END"}`) {
+				if id := idOf([]byte(t)); id != "" {
+					complete[id] = true
+				}
 			}
 		}
+		return complete
+	}
+	complete := completeIn(data)
+	if strings.HasSuffix(kind, "2files") {
+		// the other targets of the same logger: a line counts only if it is complete in every one of them
+		for _, prefix := range []string{"u.log", "v.log"} {
+			var d2 []byte
+			ents, _ := os.ReadDir(dir)
+			for _, e := range ents {
+				if strings.HasPrefix(e.Name(), prefix) {
+					b, _ := os.ReadFile(filepath.Join(dir, e.Name()))
+					d2 = append(d2, b...)
+					if len(b) > 0 && b[len(b)-1] != '\n' {
+						d2 = append(d2, "<partial-at-death>\n"...)
+					}
+				}
+			}
+			c2 := completeIn(d2)
+			for id := range complete {
+				if !c2[id] {
+					delete(complete, id)
+				}
+			}
+			data = append(append(data, ("\n==== " + prefix + " ====\n")...), d2...)
+		}
+		w.Count("multi_target_runs", 1)
 	}
 	w.Eval(1)
 	w.Count("acknowledged_calls_checked", int64(len(acked)))
@@ -289,7 +329,7 @@ func c20one(w *W, kind, layout string, G, N, k int, mode string, idx int) {
 }
 
 func c20Worker(w *W) {
-	kinds := []string{"file", "rolling", "console", "loggerlayout-file", "filelogger", "rollinglogger", "consolelogger"}
+	kinds := []string{"file", "rolling", "console", "loggerlayout-file", "filelogger", "rollinglogger", "consolelogger", "loggerlayout-2files", "2files"}
 	layouts := []string{"text", "json"}
 	idx := 0
 	N := 40
@@ -357,7 +397,7 @@ func init() {
 	subcommands["c20child"] = c20child
 	register(&Prop{
 		ID: "C20", Level: "fault_enumeration", MinDistinct: 50, Worker: c20Worker,
-		Rule: "crash points: a child process logs through a synchronous logger to {File appender, RollingFile appender, Console appender (stdout redirected to a file), logger-level layout + File appender, File logger, RollingFile logger (separate), Console logger} x {Text, JSON} from 1 or 4 goroutines (goroutine 0 alternates 300 KB lines so that others arrive while a long write is in progress), acknowledging every returned call on a pipe; " +
+		Rule: "crash points: a child process logs through a synchronous logger to {File appender, RollingFile appender, Console appender (stdout redirected to a file), logger-level layout + File appender, one logger (with and without its own layout) over two File appenders and a RollingFile appender - the line must be in all three targets -, File logger, RollingFile logger (separate), Console logger} x {Text, JSON} from 1 or 4 goroutines (goroutine 0 alternates 300 KB lines so that others arrive while a long write is in progress), acknowledging every returned call on a pipe; " +
 			"the process is destroyed right after acknowledgement #k for k on a 10-point grid over 1..40 (thorough: every k) by SIGKILL from inside, by os.Exit(0) without Destroy, and by SIGKILL from the parent after it has read k acknowledgements; in 'contended' runs the process kills itself the moment a call returns while goroutine 0 is still inside one of its long log calls (for the three plain-file kinds also with the target replaced by a FIFO that the parent drains slowly, so that the long write stays in progress for milliseconds); for rolling kinds additional runs cross a real 1 s boundary and SIGKILL the process from inside rotate() at one of three guarded yield points after lingering there 25 ms while the other goroutines keep logging and acknowledging. " +
 			"Rolling kinds are also run across two real boundaries with maxAge in {24, 999999, 100000, 1} hours and then simply exit (retention scans have run in between). Oracle (parent, after the child is dead): every acknowledged id has a complete '\\n'-terminated line ending in the event's last field in the target. Non-trivial/distinct = distinct (kind, layout, goroutines, crash mode, k) crash points at which all acknowledged lines were present.",
 		Assumptions: []string{"'in the target' means in the file as seen by another process (page cache), not on stable storage: the statement is about user-space buffering, not fsync", "acknowledgements are written after the log call returned, under a mutex together with the crash decision"},
